@@ -9,7 +9,8 @@ V = os.path.dirname(os.path.dirname(os.path.abspath(__file__)))
 sys.path.insert(0, os.path.join(V, "sa"))
 from props import PROPS
 
-SEED_BASE = "3f0a31d"  # /repo HEAD the seeding sub-agents worked from
+SEED_BASES = ["87c37a6", "3f0a31d"]  # earlier /repo HEADs the seeding sub-agents worked from (newest first)
+_BASELINES = {}
 ALL = [p for p in ["C%02d" % i for i in range(1, 21)] if p in PROPS]
 
 
@@ -26,12 +27,21 @@ def main():
         if "APPLY-FAILED" in r.stdout:
             # the change was written against an older /repo HEAD (before later fix: commits): run the
             # checks on that base + change and subtract what the base alone reports
-            used_base = SEED_BASE
-            rb = subprocess.run(["python3", os.path.join(V, "tools", "try_patch.py"), "--base", SEED_BASE, "--none"] + ALL, stdout=subprocess.PIPE, stderr=subprocess.STDOUT, text=True, env=env)
-            for l in rb.stdout.splitlines():
-                if l.strip().startswith(("rule violated", "UNDECIDED", "ANCHOR")):
-                    baseline.add(re.sub(r"^(rule violated|UNDECIDED \(fail-closed\)|ANCHOR-MISSING/FLOOR \(fail-closed; not a rule violation\)): ", "", l.strip()).split(" at ")[0])
-            r = subprocess.run(["python3", os.path.join(V, "tools", "try_patch.py"), "--base", SEED_BASE, "--patch", os.path.join(d, "patch.diff")] + ALL, stdout=subprocess.PIPE, stderr=subprocess.STDOUT, text=True, env=env)
+            for cand in SEED_BASES:
+                r2 = subprocess.run(["python3", os.path.join(V, "tools", "try_patch.py"), "--base", cand, "--patch", os.path.join(d, "patch.diff")] + ALL, stdout=subprocess.PIPE, stderr=subprocess.STDOUT, text=True, env=env)
+                if "APPLY-FAILED" in r2.stdout:
+                    continue
+                used_base = cand
+                r = r2
+                if cand not in _BASELINES:
+                    rb = subprocess.run(["python3", os.path.join(V, "tools", "try_patch.py"), "--base", cand, "--none"] + ALL, stdout=subprocess.PIPE, stderr=subprocess.STDOUT, text=True, env=env)
+                    bl = set()
+                    for l in rb.stdout.splitlines():
+                        if l.strip().startswith(("rule violated", "UNDECIDED", "ANCHOR")):
+                            bl.add(re.sub(r"^(rule violated|UNDECIDED \(fail-closed\)|ANCHOR-MISSING/FLOOR \(fail-closed; not a rule violation\)): ", "", l.strip()).split(" at ")[0])
+                    _BASELINES[cand] = bl
+                baseline = _BASELINES[cand]
+                break
         fired = {}
         cur = None
         for l in r.stdout.splitlines():
